@@ -332,6 +332,34 @@ func runOne(r *driver.Run) {
 		}
 		probe(string(b))
 	}
+	// --- a Dawg handed to the caller must not change when another one is built afterwards
+	if t.Chance(1, 3) {
+		other := []string{"a", "ab", "b", "ba", "bab", "c"}
+		var d2 *dawg.Dawg
+		r.Must("dawg.New(second set)", budget, func() {
+			l := make([][]byte, len(other))
+			for i, w := range other {
+				l[i] = []byte(w)
+			}
+			d2, _ = dawg.New(l)
+		})
+		if d2 != nil {
+			var n2 int
+			r.Must("NumberOfWords(second)", budget, func() { n2 = d2.NumberOfWords() })
+			if n2 != len(other) {
+				r.Fail("NumberOfWords", "second Dawg", "a second Dawg built afterwards from %v reports %d words", other, n2)
+			}
+		}
+		var again int
+		r.Must("NumberOfWords", budget, func() { again = d.NumberOfWords() })
+		if again != len(accepted) {
+			r.Fail("earlier-result-corrupted", "Dawg changed by a later build", "after building a second Dawg the first reports %d words, it has %d", again, len(accepted))
+		}
+		for _, w := range accepted {
+			probe(w)
+		}
+		r.Probe("first-dawg-rechecked-after-building-a-second")
+	}
 	// --- structure through the verif-tagged accessor
 	var nodes []dawg.VerifNode
 	r.Must("VerifNodes", budget, func() { nodes = dawg.VerifNodes(d) })
